@@ -1,6 +1,7 @@
 import Driver.Util
 import Driver.BipSpec
 import Driver.LoopSpec
+import Driver.MirroredSpec
 
 /-! `sonicspec`: the property monitors alone (no model, nothing regenerated from the source). -/
 
@@ -8,6 +9,7 @@ open Driver
 
 def components : List (String × (Script → Result)) :=
   [("bip", Driver.BipSpec.check),
-   ("loop", Driver.LoopSpec.check)]
+   ("loop", Driver.LoopSpec.check),
+   ("mirrored", Driver.MirroredSpec.check)]
 
 def main (args : List String) : IO UInt32 := Driver.mainWith components args
